@@ -753,6 +753,44 @@ func certainlyNonNilErr(ev ssa.Value, at *ssa.BasicBlock, depth int) bool {
 	return false
 }
 
+// resolveSpill: go/ssa spills results through a cell when the function has defers
+// (*t0 = v; rundefers; t = *t0; return t). For such a load it returns the values stored to
+// the cell in the returning block (the last one) or, failing that, anywhere; otherwise v itself.
+func resolveSpill(v ssa.Value) []ssa.Value {
+	u, ok := v.(*ssa.UnOp)
+	if !ok || u.Op != token.MUL {
+		return []ssa.Value{v}
+	}
+	a, ok := u.X.(*ssa.Alloc)
+	if !ok {
+		return []ssa.Value{v}
+	}
+	var last ssa.Value
+	for _, in := range u.Block().Instrs {
+		if in == ssa.Instruction(u) {
+			break
+		}
+		if st, ok := in.(*ssa.Store); ok && st.Addr == ssa.Value(a) {
+			last = st.Val
+		}
+	}
+	if last != nil {
+		return []ssa.Value{last}
+	}
+	var all []ssa.Value
+	if refs := a.Referrers(); refs != nil {
+		for _, r := range *refs {
+			if st, ok := r.(*ssa.Store); ok && st.Addr == ssa.Value(a) {
+				all = append(all, st.Val)
+			}
+		}
+	}
+	if len(all) == 0 {
+		return []ssa.Value{v}
+	}
+	return all
+}
+
 // isNilErrReturn: the return's error operand is the nil constant (a certain success exit).
 func isNilErrReturn(ret *ssa.Return) bool {
 	n := len(ret.Results)
